@@ -105,6 +105,14 @@ class C07(HistoryProperty):
                 spec["nodes"].append({"k": "derive", "base": fid, "how": "with_options", "options": p, "id": "fder"})
                 spec["roots"].append("fder")
                 members.append("fder")
+        # constants that are EQUAL (==) but not the same value -- 1, 1.0, True; 0, False -- as implementations registered one
+        # after the other under one alias: the later registration replaces the earlier one
+        twins = []
+        if rng.random() < 0.3:
+            k0 = len(spec["nodes"])
+            for j, v in enumerate(rng.choice([[1, True, 1.0], [0, False], [True, 1]])):
+                spec["nodes"].insert(0, {"k": "val", "v": v, "id": f"tw{k0 + j}"})
+                twins.append(f"tw{k0 + j}")
         dg = U.DictGen(rng, cfg, no_list_keys=gen.hashable_required_keys(spec) | set(U.DISPATCH_KEYS))
         o = dg.fresh()
         ops = []
@@ -129,6 +137,9 @@ class C07(HistoryProperty):
                 elif rng.random() < 0.2:
                     alias = [alias, rng.choice(["x", "y"])]
                 impl = {"n": rng.choice(candidates)} if candidates else None
+                if twins and rng.random() < 0.6:
+                    impl = {"n": rng.choice(twins)}
+                    alias = "a"
                 if impl and gen.node_by_id(spec, impl["n"])["k"] in ("dataset", "derive") and rng.random() < 0.5:
                     impl["via"] = "overload"
                 if impl is None or rng.random() < 0.5:
